@@ -14,6 +14,7 @@ import (
 	"sort"
 	"strings"
 	"sync"
+	"sync/atomic"
 	"time"
 
 	_ "github.com/lmorg/murex/builtins"
@@ -32,6 +33,39 @@ type progCase struct {
 	Repeat    int    `json:"repeat"`
 	TimeoutMs int    `json:"timeout_ms"`
 	Fids      bool   `json:"fids"` // report FIDs still registered after the program
+}
+
+type fidEvent struct {
+	Ev     string `json:"ev"`
+	Fid    int64  `json:"fid"`
+	Parent int64  `json:"parent"`
+	Left   []int  `json:"left"`
+}
+
+// fidLog records FID table events in the order of the table's mutex
+var fidLog struct {
+	sync.Mutex
+	on     bool
+	evs    []fidEvent
+	rootOf map[int64]int64
+}
+
+func fidEmit(obj any, ev string, s string, n []int64) {
+	if ev != "fid.reg" && ev != "fid.dereg" {
+		return
+	}
+	fidLog.Lock()
+	e := fidEvent{Ev: ev, Fid: n[0], Left: []int{}}
+	if ev == "fid.reg" {
+		e.Parent = n[1]
+		r, ok := fidLog.rootOf[e.Parent]
+		if !ok || e.Parent == 0 {
+			r = e.Fid
+		}
+		fidLog.rootOf[e.Fid] = r
+	}
+	fidLog.evs = append(fidLog.evs, e)
+	fidLog.Unlock()
 }
 
 type progRun struct {
@@ -68,17 +102,13 @@ func liveFids() map[uint32]bool {
 	return out
 }
 
-var progSeq int
+var progSeq atomic.Int64
 
 func runOneProgram(src string, timeout time.Duration, wantFids bool) (r progRun) {
-	progSeq++
-	var before map[uint32]bool
-	if wantFids {
-		before = liveFids()
-	}
+	seq := progSeq.Add(1)
 	fork := lang.ShellProcess.Fork(lang.F_FUNCTION | lang.F_NEW_MODULE | lang.F_NO_STDIN | lang.F_CREATE_STDOUT | lang.F_CREATE_STDERR)
 	fork.Name.Set("verif")
-	fork.FileRef = &ref.File{Source: &ref.Source{Module: fmt.Sprintf("verif/m%d", progSeq)}}
+	fork.FileRef = &ref.File{Source: &ref.Source{Module: fmt.Sprintf("verif/m%d", seq)}}
 	type execRes struct {
 		exit int
 		err  error
@@ -116,17 +146,21 @@ func runOneProgram(src string, timeout time.Duration, wantFids bool) (r progRun)
 		r.Panic = "panic caught (stderr)"
 	}
 	if wantFids {
-		// quiescence: deregistration is asynchronous; poll until stable or 2 s
+		// quiescence: deregistration is asynchronous; poll until no FID of this program
+		// (root = the fork's FID) is left, or 2 s
+		root := int64(fork.Id)
 		var left []int
 		deadline := time.Now().Add(2 * time.Second)
 		for {
 			left = left[:0]
 			now := liveFids()
+			fidLog.Lock()
 			for id := range now {
-				if !before[id] {
+				if fidLog.rootOf[int64(id)] == root {
 					left = append(left, int(id))
 				}
 			}
+			fidLog.Unlock()
 			if len(left) == 0 || time.Now().After(deadline) {
 				break
 			}
@@ -134,6 +168,9 @@ func runOneProgram(src string, timeout time.Duration, wantFids bool) (r progRun)
 		}
 		sort.Ints(left)
 		r.Fids = left
+		fidLog.Lock()
+		fidLog.evs = append(fidLog.evs, fidEvent{Ev: "quiet", Fid: root, Left: append([]int{}, left...)})
+		fidLog.Unlock()
 	}
 	return
 }
@@ -143,6 +180,8 @@ func runPrograms(args []string) int {
 	in := fs.String("in", "", "cases ndjson")
 	out := fs.String("out", "", "results ndjson")
 	perturbSeed := fs.Int64("perturb", 0, "if non-zero: yield/sleep randomly at the verif gates (seed)")
+	conc := fs.Int("conc", 1, "programs executed concurrently")
+	events := fs.String("events", "", "write the FID table event log here (ndjson)")
 	fs.Parse(args)
 	cases, err := readNDJSON[progCase](*in)
 	if err != nil {
@@ -155,15 +194,24 @@ func runPrograms(args []string) int {
 		return 2
 	}
 	defer f.Close()
+	var emu sync.Mutex
 	emit := func(v any) {
 		b, _ := jsonMarshal(v)
+		emu.Lock()
 		f.Write(append(b, '\n'))
+		emu.Unlock()
 	}
 	initMurex()
+	hooks := &verifhook.Hooks{}
+	if *events != "" {
+		fidLog.on = true
+		fidLog.rootOf = map[int64]int64{}
+		hooks.Emit = fidEmit
+	}
 	if *perturbSeed != 0 {
 		var mu sync.Mutex
 		rng := rand.New(rand.NewSource(*perturbSeed))
-		verifhook.Install(&verifhook.Hooks{Gate: func(obj any, point string) {
+		hooks.Gate = func(obj any, point string) {
 			mu.Lock()
 			c := rng.Intn(16)
 			d := rng.Intn(50)
@@ -174,7 +222,51 @@ func runPrograms(args []string) int {
 			case c < 8:
 				time.Sleep(time.Duration(d) * time.Microsecond)
 			}
-		}})
+		}
+	}
+	verifhook.Install(hooks)
+	defer func() {
+		if *events != "" {
+			w, err := newNDWriter(*events)
+			if err == nil {
+				fidLog.Lock()
+				for _, e := range fidLog.evs {
+					w.Write(e)
+				}
+				fidLog.Unlock()
+				w.Close()
+			}
+		}
+	}()
+	if *conc > 1 {
+		// concurrent mode: no hang isolation (a hung program blocks only its worker until its timeout)
+		var wg sync.WaitGroup
+		ch := make(chan progCase)
+		for k := 0; k < *conc; k++ {
+			wg.Add(1)
+			go func() {
+				defer wg.Done()
+				for c := range ch {
+					to := time.Duration(c.TimeoutMs) * time.Millisecond
+					if to == 0 {
+						to = 10 * time.Second
+					}
+					res := progResult{ID: c.ID, Status: "done"}
+					r := runOneProgram(c.Src, to, c.Fids)
+					if r.Hung {
+						res.Status = "hung"
+					}
+					res.Runs = append(res.Runs, r)
+					emit(res)
+				}
+			}()
+		}
+		for _, c := range cases {
+			ch <- c
+		}
+		close(ch)
+		wg.Wait()
+		return 0
 	}
 	for _, c := range cases {
 		emit(map[string]any{"start": c.ID})
